@@ -96,17 +96,26 @@ theorem candVars_ext (U : Universe) {s s' : S} (h : Ext s s') (r : Req) (vars : 
   ⟨fun v hv => let ⟨c, h1, h2⟩ := hc.1 v hv; ⟨c, oSolv_ext h v c h1, h2⟩,
    fun c hcm => let ⟨v, h1, h2⟩ := hc.2 c hcm; ⟨v, h1, oSolv_ext h v c h2⟩⟩
 
+/-- the variables `vars` stand, position by position, for the requirement's candidates in the provider's preference order -/
+def OrdVars (U : Universe) (s : S) (r : Req) (vars : List Nat) : Prop :=
+  vars.length = (reqSorted U r).length ∧ ∀ p ∈ (reqSorted U r).zip vars, oSolv s.origins p.2 = some p.1
+
+theorem ordVars_ext (U : Universe) {s s' : S} (h : Ext s s') (r : Req) (vars : List Nat) (ho : OrdVars U s r vars) : OrdVars U s' r vars :=
+  ⟨ho.1, fun p hp => oSolv_ext h p.2 p.1 (ho.2 p hp)⟩
+
 /-- the part of the invariant about literals: solvable variables are unique, the cached variables of a requirement stand
     for exactly its candidates, and every requires clause finds its requirement in that cache -/
 structure XInv (U : Universe) (s : S) : Prop where
   inj : ∀ v x, s.origins.lookup v = some (.solvable x) → s.solvVar.lookup x = some v
   cache : ∀ r vsVars, s.reqCands.lookup r = some vsVars → CandVars U s r vsVars.flatten
+  order : ∀ r vsVars, s.reqCands.lookup r = some vsVars → OrdVars U s r vsVars.flatten
   reqs : ∀ c ∈ s.clauses.toList, ∀ p r, c.kind = .requires p r → (s.reqCands.lookup r).isSome = true
 
 theorem xinv_of_view {U : Universe} {s s' : S} (h : XInv U s) (h1 : s'.origins = s.origins) (h2 : s'.solvVar = s.solvVar)
     (h4 : s'.clauses = s.clauses) (h7 : s'.reqCands = s.reqCands) : XInv U s' :=
   ⟨by rw [h1, h2]; exact h.inj,
    by rw [h7]; intro r x hr; exact candVars_ext U (Ext.of_eq h1 h7) r _ (h.cache r x hr),
+   by rw [h7]; intro r x hr; exact ordVars_ext U (Ext.of_eq h1 h7) r _ (h.order r x hr),
    by rw [h4, h7]; exact h.reqs⟩
 
 /-- the invariant: a consistent variable map, only true clause kinds, only legitimate queued tasks -/
@@ -358,6 +367,7 @@ theorem tinv_push_origin (s : S) (hi : TInv U P s) (o : Origin) (s' : S)
     | some x => exact absurd (hi.fresh _ x hl) (Nat.lt_irrefl _)
   have hext := ext_push_origin s s.nextVar o hfresh s' ho hr
   have hx : XInv U s' := ⟨hinj, by rw [hr]; intro r x hrx; exact candVars_ext U hext r _ (hi.extra.cache r x hrx),
+    by rw [hr]; intro r x hrx; exact ordVars_ext U hext r _ (hi.extra.order r x hrx),
     by rw [hc, hr]; exact hi.extra.reqs⟩
   refine ⟨⟨hx, hi.wf, hext.org 0 _ hi.root0, ?_, hsv, ?_, ?_, by rw [hq]; exact hi.queue⟩, hext⟩
   · intro v x hv
@@ -508,7 +518,7 @@ theorem tr_allocClause (F : S → Prop) (k : Kind) (w : Option (Lit × Lit))
   intro s hi hF
   unfold allocClause
   simp only [runM_bind, runM_get, emit, runM_modify, runM_pure]
-  refine ⟨⟨⟨hi.extra.inj, hi.extra.cache, ?_⟩, hi.wf, hi.root0, hi.fresh, hi.sv, ?_, hi.trk, hi.queue⟩, Ext.of_eq rfl rfl, fun _ _ => trivial⟩
+  refine ⟨⟨⟨hi.extra.inj, hi.extra.cache, hi.extra.order, ?_⟩, hi.wf, hi.root0, hi.fresh, hi.sv, ?_, hi.trk, hi.queue⟩, Ext.of_eq rfl rfl, fun _ _ => trivial⟩
   · intro c hc p r hkr
     simp only [Array.toList_push, List.mem_append, List.mem_singleton] at hc
     rcases hc with hc | hc
@@ -536,7 +546,7 @@ theorem tr_setClause (F : S → Prop) (cid : Nat) (c' : MClause)
     have hc' : c ∈ (s.clauses.toList.set cid c') := by
       simpa [Array.set!, Array.toList_setIfInBounds] using hc
     exact List.mem_or_eq_of_mem_set hc'
-  refine ⟨⟨⟨hi.extra.inj, hi.extra.cache, ?_⟩, hi.wf, hi.root0, hi.fresh, hi.sv, ?_, hi.trk, hi.queue⟩, Ext.of_eq rfl rfl, fun _ _ => trivial⟩
+  refine ⟨⟨⟨hi.extra.inj, hi.extra.cache, hi.extra.order, ?_⟩, hi.wf, hi.root0, hi.fresh, hi.sv, ?_, hi.trk, hi.queue⟩, Ext.of_eq rfl rfl, fun _ _ => trivial⟩
   · intro c hc p r hkr
     rcases hmem c hc with h1 | h1
     · exact hi.extra.reqs c h1 p r hkr
@@ -653,7 +663,7 @@ theorem lookup_append_none {α : Type} (l l' : List (Req × α)) (r : Req) (h : 
 
 /-- `requirement_to_sorted_candidates.insert` (first insert wins) of variables that stand for exactly the requirement's candidates -/
 theorem tr_cacheInsert (F : S → Prop) (r : Req) (vsVars : List (List Nat))
-    (h : ∀ s, TInv U P s → F s → CandVars U s r vsVars.flatten) :
+    (h : ∀ s, TInv U P s → F s → CandVars U s r vsVars.flatten ∧ OrdVars U s r vsVars.flatten) :
     Tr U P F (modify fun s => if (s.reqCands.lookup r).isSome then s else { s with reqCands := s.reqCands ++ [(r, vsVars)] } : M Unit)
       (fun _ s => (s.reqCands.lookup r).isSome = true) := by
   intro s hi hF
@@ -668,7 +678,7 @@ theorem tr_cacheInsert (F : S → Prop) (r : Req) (vsVars : List (List Nat))
       | some x => rw [hl] at hc; exact absurd rfl hc
     have hnew : (s.reqCands ++ [(r, vsVars)]).lookup r = some vsVars := by
       rw [lookup_append_none _ _ _ hnone]; simp [List.lookup_cons]
-    refine ⟨⟨⟨hi.extra.inj, ?_, ?_⟩, hi.wf, hi.root0, hi.fresh, hi.sv, hi.kinds, hi.trk, hi.queue⟩,
+    refine ⟨⟨⟨hi.extra.inj, ?_, ?_, ?_⟩, hi.wf, hi.root0, hi.fresh, hi.sv, hi.kinds, hi.trk, hi.queue⟩,
       ⟨fun _ _ h => h, fun r' x hr => lookup_append_some _ _ _ _ hr⟩, fun _ _ => by rw [hnew]; rfl⟩
     · intro r' x hr
       show CandVars U s r' x.flatten
@@ -686,7 +696,25 @@ theorem tr_cacheInsert (F : S → Prop) (r : Req) (vsVars : List (List Nat))
           have : r' = r := by simpa using he
           subst this
           cases hr'
-          exact h s hi hF
+          exact (h s hi hF).1
+        · cases hr'
+    · intro r' x hr
+      show OrdVars U s r' x.flatten
+      have hr' : (s.reqCands ++ [(r, vsVars)]).lookup r' = some x := hr
+      cases hl : s.reqCands.lookup r' with
+      | some y =>
+        rw [lookup_append_some _ _ _ _ hl] at hr'
+        cases hr'
+        exact hi.extra.order r' _ hl
+      | none =>
+        rw [lookup_append_none _ _ _ hl] at hr'
+        simp only [List.lookup_cons, List.lookup_nil] at hr'
+        split at hr'
+        · next he =>
+          have : r' = r := by simpa using he
+          subst this
+          cases hr'
+          exact (h s hi hF).2
         · cases hr'
     · intro c hcm p r' hk
       have := hi.extra.reqs c hcm p r' hk
